@@ -62,6 +62,7 @@ Print Assumptions C09_buffer_bound.
    with the real size estimate and the real encoder the announced frame length is within the limit and the
    receiving Codec::decode returns exactly the started payload.  Tie: Tie_server (shape of blocks_fitting_in_message). *)
 From BS Require Import Types FramedWrite ServerHandler Handler_proofs ServerHandler_proofs ServerHandler_wire Tie_server.
+From BS Require Import Tie_srvhandler.  (* ServerHandler.sh_iter IS the interpretation of the extracted arms of ServerConnectionHandler::poll_outgoing *)
 Open Scope N_scope.
 
 Theorem C09_outbound_split :
